@@ -819,3 +819,38 @@ def must_pass(f, through, goal):
         return goal in through
     r = reach_with_variants(f, 0, stop=through)
     return goal not in r
+
+
+IDENTITY_CALLS = TRANSPARENT | {"from_utf8", "from_utf8_lossy", "from_utf8_unchecked", "into_boxed_str", "into_string", "as_bytes", "to_vec", "into_bytes", "as_mut_str", "index"}
+
+
+def identity_flow(prog, f, op, is_terminal, ident=None, limit=14):
+    """Follow the value of `op` backwards through identity conversions only.  Returns (terminals, foreign): the origins accepted by
+    `is_terminal(fn, origin)` and the names of everything else the value passes through (calls that compute a new value, parameters)."""
+    ident = ident or IDENTITY_CALLS
+    terms, foreign, seen = [], [], set()
+
+    def walk(o_p, depth):
+        if o_p[0] == "k" or depth > limit:
+            return
+        for o in f.trace_operand(o_p):
+            k = (o.kind, o.ref if isinstance(o.ref, (int, str)) else id(o.ref), tuple(map(str, o.proj)))
+            if k in seen:
+                continue
+            seen.add(k)
+            if is_terminal(f, o):
+                terms.append(o)
+            elif o.kind == "call":
+                if o.ref.name in ident and o.ref.args:
+                    walk(o.ref.args[0], depth + 1)
+                else:
+                    foreign.append(o.ref.name)
+            elif o.kind == "agg":
+                for sub in o.ref[2][2]:
+                    walk(sub, depth + 1)
+            elif o.kind == "param":
+                foreign.append("parameter %s%s" % (f.local_name(o.ref), "".join(p for p in map(str, o.proj) if p.startswith("."))[:40]))
+            elif o.kind == "const":
+                foreign.append("constant")
+    walk(op, 0)
+    return terms, foreign
